@@ -16,8 +16,10 @@ Definition apply_write (file : list Z) (off : Z) (data : list Z) : list Z :=
   firstn o (file ++ repeat 0 (o - length file)) ++ data ++ skipn (o + length data) file.
 
 Section Put.
-  (* SFTPFile.MAX_REQUEST_SIZE and the BufferedFile buffer size of the "wb" open (Gen: 32768, 8192) *)
-  Variables (mrs bufsize : Z).
+  (* SFTPFile.MAX_REQUEST_SIZE (Gen: 32768).  putfo opens the remote file with self.file(path, "wb"):
+     bufsize = -1, which BufferedFile._set_mode turns into 0 = UNBUFFERED (gen/c30.py checks both), so
+     every write() goes straight to _write_all and the write buffer stays empty. *)
+  Variable (mrs : Z).
 
   (* f (C30: pipelined, _reqs, _closed), client, _realpos, _wbuffer, the remote file, and the
      environment's answer to each successive _write: (recv_ready(), status code) *)
@@ -60,11 +62,9 @@ Section Put.
     | _ => (r, s1)
     end.
 
-  (* BufferedFile.write on a buffered binary file *)
+  (* BufferedFile.write on an unbuffered file: _write_all(data) *)
   Definition bwrite (s : pst) (data : list Z) : ores * pst :=
-    if f_closed (p_f s) then (ORaise IOErr, s) else
-    let s1 := mkP (p_f s) (p_c s) (p_pos s) (p_wbuf s ++ data) (p_file s) (p_env s) in
-    if bufsize <=? zlen (p_wbuf s1) then flush s1 else (ORet, s1).
+    if f_closed (p_f s) then (ORaise IOErr, s) else write_all (length data) s data.
 
   (* _transfer_with_callback: chunks = the non-empty results of reader.read(32768); then b"" *)
   Fixpoint transfer (s : pst) (chunks : list (list Z)) (size : Z) : ores * Z * pst :=
@@ -134,10 +134,10 @@ Definition accepted (env : list (bool * Z)) : Prop := Forall (fun p => snd p = g
 (* ---- correspondence entry point ---- *)
 Definition opt_reply (l : list Z) : option reply :=
   match l with [t; k] => Some (t, k) | _ => None end.
-(* input: ((mrs, bufsize, confirm), chunks, env, (open_t, open_k, close_t, close_k), stat) *)
-Definition run_putfo (x : (Z * Z * bool) * list (list Z) * list (bool * Z) * (Z * Z * Z * Z) * list Z) : list Z :=
+(* input: ((mrs, confirm), chunks, env, (open_t, open_k, close_t, close_k), stat) *)
+Definition run_putfo (x : (Z * bool) * list (list Z) * list (bool * Z) * (Z * Z * Z * Z) * list Z) : list Z :=
   let '(cfg, chunks, env, rps, st) := x in
-  let '(m, b, confirm) := cfg in
+  let '(m, confirm) := cfg in
   let '(ot, ok, ct, ck) := rps in
-  let '(r, dest) := putfo m b chunks confirm env (ot, ok) (ct, ck) (opt_reply st) in
+  let '(r, dest) := putfo m chunks confirm env (ot, ok) (ct, ck) (opt_reply st) in
   (match r with ORet => 0 | ORaise _ => 1 | OBlocked => 98 end) :: zlen dest :: dest.
